@@ -148,6 +148,14 @@ def ob_protected_lookup(ctx: Ctx) -> Outcome:
     filt = [t for t in tests if isinstance(t, ast.UnaryOp) and isinstance(t.op, ast.Not) and isinstance(t.operand, ast.Call) and t.operand in uses and len(t.operand.args) == 1 and isinstance(t.operand.args[0], ast.Call) and isinstance(t.operand.args[0].func, ast.Attribute) and t.operand.args[0].func.attr == "start" and not t.operand.args[0].args]
     if len(filt) != 1 or len(uses) != 1:
         problems.append("matches are not filtered by `not _is_protected(<match>.start())` exactly once")
+    # the zone ranges: a line opens / closes a protected zone only when the LEXER's fence pattern takes it as a fence line (a
+    # private notion of "fence line" - strip(), startswith - disagrees with the reader on runs behind a tab or followed by a
+    # later backtick, and the zone loses its protection from that line on)
+    fence_tests = [n for n in ast.walk(fn) if isinstance(n, ast.Call) and ast.unparse(n.func) == "FENCE_PATTERN.match" and len(n.args) == 1 and isinstance(n.args[0], ast.Name) and n.args[0].id == "line"]
+    imports_pattern = any(isinstance(n, ast.ImportFrom) and n.module == "octave_mcp.core.lexer" and any(a.name == "FENCE_PATTERN" and a.asname is None for a in n.names) for n in ast.walk(extract.module_ast(WRITE)))
+    private = [n for n in ast.walk(fn) if isinstance(n, ast.Call) and isinstance(n.func, ast.Attribute) and n.func.attr == "startswith" and n.args and isinstance(n.args[0], ast.Constant) and isinstance(n.args[0].value, str) and n.args[0].value.startswith("```")]
+    if len(fence_tests) != 1 or not imports_pattern or private:
+        problems.append("fence lines of the protected zones are not recognised by the lexer's FENCE_PATTERN.match(line)")
     if problems:
         return shape_verdict("ast-frame", problems, probe_brace_repair, 1, rp)
     out = contract_outcome(RC.IS_PROTECTED, "contracts.receipts:IS_PROTECTED")
